@@ -121,7 +121,7 @@ class Parser:
                 if close is not None:
                     if True:
                         txt = self.t[self.i + 1:close - 1]
-                        targs_txt = tok_join(txt)
+                        targs_txt = tok_join(txt) + ('>' if self.t[close - 1][1] == '>>' else '')
                         self.i = close
                         if self.peek()[1] == '::':
                             name += '<' + targs_txt + '>'
